@@ -72,6 +72,23 @@ func (s *Server[StateT]) setConnReadDeadline(conn net.Conn) error {
 	return conn.SetReadDeadline(time.Now().Add(s.ReadTimeout))
 }
 
+// deadlineWriter gives every write the same time a client has to send a command: one which doesn't take its answer
+// is not different from one which is silent, but without any limit handler would wait for it in Write for ever.
+type deadlineWriter struct {
+	conn    net.Conn
+	timeout time.Duration
+}
+
+func (w *deadlineWriter) Write(p []byte) (int, error) {
+	if w.timeout > 0 {
+		if err := w.conn.SetWriteDeadline(time.Now().Add(w.timeout)); err != nil {
+			return 0, err
+		}
+	}
+
+	return w.conn.Write(p)
+}
+
 func (s *Server[StateT]) deriveConnContext(conn net.Conn) context.Context {
 	if s.ConnContext == nil {
 		return context.Background()
@@ -84,7 +101,7 @@ func (s *Server[StateT]) serveConn(conn net.Conn) {
 	ctx := &Context[StateT]{
 		RemoteAddr: conn.RemoteAddr(),
 		rd:         proto.Reader{Reader: conn},
-		wr:         proto.Writer{Writer: conn},
+		wr:         proto.Writer{Writer: &deadlineWriter{conn: conn, timeout: s.ReadTimeout}},
 	}
 	ctx.Context, ctx.cancel = context.WithCancel(s.deriveConnContext(conn))
 
